@@ -561,3 +561,20 @@ func loopExits(p *core.Program, l *core.Loop) []loopExit {
 	}
 	return out
 }
+
+// ThoroughSelfCheck (thorough tier): re-verifies the analysis' own intermediate representation.
+// Every analysis unit is expanded and the clone is checked for structural sanity (core.VerifyClone);
+// the same is done for every function a rule of this run asked to be expanded. A malformed clone
+// is an internal failure of the checker (exit 2), never a verdict about /repo.
+func ThoroughSelfCheck(p *core.Program, r *core.Report) {
+	n, bad := 0, 0
+	for _, u := range units(p) {
+		n++
+		if probs := core.VerifyClone(u); len(probs) > 0 {
+			bad++
+			r.Fatal("expanded clone of %s is malformed: %s", unitName(p, u), strings.Join(probs, "; "))
+		}
+	}
+	r.Stats["thorough_clones_verified"] = n
+	r.Stats["thorough_clones_malformed"] = bad
+}
